@@ -324,3 +324,88 @@ if _SP:
                       assumptions=['the stdlib mixin source of the interpreter that runs the library (3.12.1) is read like repository code',
                                    'contracts of Unique.add/discard/__contains__ (units tools.Unique.*)'],
                       linkage=[('concepts.tools.Unique.' + _q, None)]))
+
+
+# ---- Unique.__init__ / issuperset
+
+class SeqAcc:
+    """ghost accumulator of a list comprehension producing labels"""
+
+    def __init__(self, path):
+        self.acc0 = seqs.empty
+
+    def fresh_acc(self, p):
+        return fresh_seq(p, 'acc')
+
+    def extend(self, acc, elt):
+        return seqs.app(acc, name_of(elt))
+
+    def result(self, p, acc):
+        return ListObj(p, acc, 'comprehension-result')
+
+
+def _init(path):
+    from contracts.definitions import NameSeqArg
+    this = ObjV('Unique', {}, name='self')
+    xs = NameSeqArg(path, 'iterable')
+    made = []
+
+    def set_(p, args, kw):
+        if args:
+            raise Unsupported('set(...) with an argument')
+        st = SetObj(p, Const('emptyset!%d' % next(p.eng.counter), NSet), 'seen')
+        x = Const('x', Name)
+        p.assume(ForAll([x], Not(Select(st.S, x)), patterns=[Select(st.S, x)]))
+        made.append(st)
+        return st
+    acc = SeqAcc(path)
+
+    def inv(e, k, A):
+        S = made[0].S
+        x = Const('x', Name)
+        # after k elements: the kept items are the fold of add1 (names in the order given, without repeats) and `seen` is their set
+        return [('items', A == seqs.fold_add(seqs.empty, xs.s, k)),
+                ('seen', ForAll([x], Select(S, x) == seqs.mem(A, x), patterns=[Select(S, x), seqs.mem(A, x)])),
+                ('nodup', seqs.nodup(A))]
+    acc.invariant = inv
+    acc.havoc = lambda p: made[0].havoc(p)
+
+    def finish(path, env, outcome):
+        if outcome[0] != 'return':
+            path.oblige('post/no-exception', 'post', BoolVal(False))
+            return
+        ok = len(made) == 1 and this.fields.get('_seen') is made[0] and isinstance(this.fields.get('_items'), ListObj) \
+            and set(this.fields) == {'_seen', '_items'}
+        path.oblige('post/fields', 'post', BoolVal(ok))
+        if ok:
+            s, S = this.fields['_items'].s, this.fields['_seen'].S
+            path.oblige('post/WF', 'post', wf_unique(s, S))
+            path.oblige('post/names-in-the-order-given-without-repeats', 'post', s == seqs.fold_add(seqs.empty, xs.s, seqs.slen(xs.s)))
+    return ({'self': this, 'iterable': xs}, {'globals': dict(lib.builtins(), set=FuncV('set', set_)),
+                                             'comprehension_loops': {'ListComp#0': acc}}, finish)
+
+
+def _issuperset(path):
+    from contracts.definitions import NameSeqArg
+    u = make_unique(path)
+    xs = NameSeqArg(path, 'items')
+
+    def finish(path, env, outcome):
+        if outcome[0] != 'return':
+            path.oblige('post/no-exception', 'post', BoolVal(False))
+            return
+        t = Int('t')
+        spec = ForAll([t], Implies(And(0 <= t, t < seqs.slen(xs.s)), seqs.mem(u.items0, seqs.at(xs.s, t))), patterns=[seqs.at(xs.s, t)])
+        path.oblige('post/every-item-present', 'post', truthy(outcome[1]) == spec)
+        path.oblige('post/unchanged', 'post', And(view(u)[0] == u.items0, view(u)[1] == u.seen0))
+    return {'self': u, 'items': xs}, None, finish
+
+
+from z3 import Implies  # noqa: E402
+
+register(Unit('tools.Unique.__init__', T, 'Unique.__init__', _unit('__init__', _init),
+              assumptions=['the comprehension with the side-effecting condition is executed as a loop with an invariant over the kept items',
+                           'set(): a new empty set; bound method seen.add'],
+              linkage=[('concepts.tools.Unique.__init__', None)]))
+register(Unit('tools.Unique.issuperset', T, 'Unique.issuperset', _unit('issuperset', _issuperset),
+              assumptions=['builtins all / map (lazy, element-wise)'], linkage=[('concepts.tools.Unique.issuperset', None)]))
